@@ -32,6 +32,7 @@ type Case struct {
 	Seed   uint64 `json:"seed"`
 	Layout string `json:"layout"` // follow | single
 	Steps  int    `json:"steps"`
+	Omit   bool   `json:"omit"` // resolver.omit_template_comment
 }
 
 type Obs struct {
@@ -40,6 +41,7 @@ type Obs struct {
 	Seed    uint64   `json:"seed"`
 	Step    int      `json:"step"`
 	Layout  string   `json:"layout"`
+	Omit    bool     `json:"omitTemplateComment"`
 	Ops     []string `json:"ops"`
 	AddOnly bool     `json:"addOnly"`
 	Before  []OFile  `json:"before"`
@@ -113,13 +115,13 @@ func worker(c Case) {
 	}
 	w.Sch = initialSchema(r)
 	for k := 0; k <= c.Steps; k++ {
-		o := Obs{Case: c.ID, Kind: c.Kind, Seed: c.Seed, Step: k, Layout: c.Layout, Dir: dir, AddOnly: true}
+		o := Obs{Case: c.ID, Kind: c.Kind, Seed: c.Seed, Step: k, Layout: c.Layout, Omit: c.Omit, Dir: dir, AddOnly: true}
 		if err := script(w, r, k, &o); err != nil {
 			o.Note = "harness-error: " + err.Error()
 			enc.Encode(o)
 			return
 		}
-		if err := w.Sch.write(dir, pkg, c.Layout); err != nil {
+		if err := w.Sch.write(dir, pkg, c.Layout, c.Omit); err != nil {
 			panic(err)
 		}
 		o.Before = observeAll(dir)
@@ -218,7 +220,7 @@ func main() {
 	nr := 14
 	steps := 4
 	if *tier == "thorough" {
-		nr, steps = 120, 7
+		nr, steps = 300, 7
 	}
 	if *nrand >= 0 {
 		nr = *nrand
@@ -231,7 +233,7 @@ func main() {
 		if i%3 == 2 {
 			layout = "single"
 		}
-		cases = append(cases, Case{Kind: "random", Seed: r.Next(), Layout: layout, Steps: steps + r.Below(2)})
+		cases = append(cases, Case{Kind: "random", Seed: r.Next(), Layout: layout, Steps: steps + r.Below(2), Omit: i%4 == 1})
 	}
 	for i := range cases {
 		cases[i].ID = i
